@@ -285,6 +285,17 @@ package keeper
 
 // native side of the ERC20 conversions (C10): exactly the converted amount is minted to the receiver / burned from the
 // sender, after / before the same amount is burned / minted on the ERC20 contract; the module account nets to zero
+// The token record an ERC20 deployment is made for (C09): an unregistered min unit (an IBC denomination) gets a new
+// record only under a symbol nobody holds - an existing token is never replaced; a registered min unit gives its token.
+//@ func Keeper.buildERC20Token
+//@   property C09
+//@   returns tok, err
+//@   requires minUnitWF(minUnit)
+//@   modifies bal, supply
+//@   ensures symbol_free: err == nil && !has(byMinUnit, minUnit) ==> !has(tokens, symbol) && tok.Symbol == symbol && tok.MinUnit == minUnit
+//@   ensures registered:  err == nil && has(byMinUnit, minUnit) ==> tok == get(tokens, get(byMinUnit, minUnit))
+//@ end
+
 //@ func Keeper.SwapFromERC20
 //@   property C10
 //@   returns err
